@@ -31,6 +31,8 @@ type Case struct {
 	Valid       bool     `json:"valid"`  // body is a valid request for the advertised type picked by the generator
 	VProtocol   string   `json:"vprotocol,omitempty"`
 	VCodec      string   `json:"vcodec,omitempty"`
+	// ContentLength: the request announces its body size (fixed-size clients, curl)
+	ContentLength bool `json:"content_length,omitempty"`
 }
 
 type namedCodec struct{ name string }
@@ -184,7 +186,7 @@ func check(tt *testing.T, c Case) (pbt.Info, error) {
 			hdr.Set("Te", "trailers")
 		}
 	}
-	rec := memnet.Serve(h, c.Method, prog.Procedure(c.Kind), hdr, bytes.NewReader(body), memnet.ServeOpts{ProtoMajor: c.ProtoMajor})
+	rec := memnet.Serve(h, c.Method, prog.Procedure(c.Kind), hdr, bytes.NewReader(body), memnet.ServeOpts{ProtoMajor: c.ProtoMajor, HaveContentLength: c.ContentLength, ContentLength: int64(len(body))})
 	where := fmt.Sprintf("%s handler (extra codecs %q), %s HTTP/%d Content-Type %q", c.Kind, c.Codecs, c.Method, c.ProtoMajor, c.ContentType)
 	if rec.Panicked {
 		return info, fmt.Errorf("%s: ServeHTTP panicked: %v", where, rec.PanicValue)
@@ -312,6 +314,7 @@ func gen(t *rapid.T) Case {
 	c := Case{Kind: rapid.SampledFrom(prog.Kinds).Draw(t, "kind")}
 	c.Method = rapid.SampledFrom([]string{"POST", "POST", "POST", "POST", "GET", "PUT", "HEAD", "OPTIONS", "DELETE", "PATCH", "post", "Post", "POSTS", "CONNECT", "X"}).Draw(t, "method")
 	c.ProtoMajor = rapid.SampledFrom([]int{1, 2, 2, 2, 3}).Draw(t, "major")
+	c.ContentLength = rapid.Bool().Draw(t, "contentLength")
 	n := rapid.IntRange(0, 3).Draw(t, "ncodecs")
 	if n == 3 {
 		n = 0
